@@ -261,22 +261,27 @@ func c13Check(env *core.Env, cc core.Case) core.Verdict {
 	if d := sut.Diff(before, sut.Snap(root)); len(d) > 0 {
 		return core.Viol("check-writes", "renumber-tests --check modified the tree: %v", d)
 	}
-	anyOtherDirty := false
-	for _, o := range otherRel {
-		if c13Model(o.Rule, o.Content) != o.Content {
-			anyOtherDirty = true
-		}
-	}
-	if (rc.Exit != 0) != (want != c.Content || (c.All && anyOtherDirty)) {
-		return core.Viol("check-disagrees", "--check exit=%d but a rewrite %s change the file (lane %s)\ncontent=%s\nexpected=%s", rc.Exit, map[bool]string{true: "would", false: "would not"}[want != c.Content], c.Lane, core.Q(c.Content), core.Q(want))
-	}
 	// 2. renumber
 	r1 := cli(env, root, nil, args(false)...)
 	if r1.Exit != 0 {
 		return core.Viol("renumber-fails", "renumber-tests failed on a valid test file: %s", describe(r1))
 	}
 	got, _ := sut.Read(root, rel)
-	if got != want {
+	// --check (run before) fails exactly when the rewrite changes the bytes of a file it covers; where the line model
+	// says the content needs renumbering it must fail whatever the tool does about terminators
+	rewritten := got != c.Content
+	if c.All {
+		for p, o := range otherRel {
+			if gotO, _ := sut.Read(root, p); gotO != o.Content {
+				rewritten = true
+			}
+		}
+	}
+	needs := !sameLines(want, c.Content)
+	if (rc.Exit != 0) != rewritten || (needs && rc.Exit == 0) {
+		return core.Viol("check-disagrees", "--check exit=%d but the rewrite %s the file (the line model says renumbering is %s; lane %s)\ncontent=%s\nexpected=%s", rc.Exit, map[bool]string{true: "changed", false: "did not change"}[rewritten], map[bool]string{true: "needed", false: "not needed"}[needs], c.Lane, core.Q(c.Content), core.Q(want))
+	}
+	if !sameLines(got, want) {
 		return core.Viol("wrong-output", "renumber-tests wrote unexpected bytes (lane %s)\ninput   =%s\ngot     =%s\nexpected=%s", c.Lane, core.Q(c.Content), core.Q(got), core.Q(want))
 	}
 	after := sut.Snap(root)
@@ -288,7 +293,7 @@ func c13Check(env *core.Env, cc core.Case) core.Verdict {
 	if c.All {
 		for p, o := range otherRel {
 			gotO, _ := sut.Read(root, p)
-			if wantO := c13Model(o.Rule, o.Content); gotO != wantO {
+			if wantO := c13Model(o.Rule, o.Content); !sameLines(gotO, wantO) {
 				return core.Viol("wrong-output:second-file", "renumber-tests --all wrote unexpected bytes into %s (one of %d files)\n%s", p, len(otherRel)+1, firstDiff(gotO, wantO))
 			}
 		}
